@@ -178,6 +178,11 @@ def gen_layers(rng, n, with_unit=True, p_fault=0.25, allow_notimpl=True):
         if kind == "class" and bases:
             # a class layer inherits the hooks of its base classes (hasattr is true): give it its own
             lay["setUp"] = lay["tearDown"] = lay["testSetUp"] = lay["testTearDown"] = True
+        if kind == "instance" and rng.random() < 0.2:
+            lay["falsy"] = True
+        if kind == "instance" and rng.random() < 0.1 and not any(l.get("module") == "wrt" for l in layers):
+            # the dotted name of this layer also designates another object of an imported module
+            lay["module"], lay["name"] = "wrt", rng.choice(["Base", "LayerError", "LAYERS"])
         lay["excStyle"] = rng.choice([None, None, "cause", "context", "unhashable", "unhashable-cause", "syntax", "attr-hook"])
         if lay["setUp"] and rng.random() < p_fault * 0.5:
             lay["setUpRaises"] = rng.choice([[0], [0], [1], [999999]])
@@ -332,6 +337,11 @@ def cli_args(d, o, extra=()):
         groups.append(["--all"])
     if o.get("only_level") is not None:
         groups.append(opt("--only-level", o["only_level"]))
+    if o.get("post_mortem"):
+        groups.append(["-D"])
+    if o.get("pkgpath"):
+        # a directory under the search path that is also mapped into its package by --package-path
+        groups.append(["--package-path", os.path.join(d, o["pkgpath"]), o["pkgpath"]])
     if o.get("list"):
         groups.append(["--list-tests"])
     if o.get("xml"):
@@ -371,13 +381,20 @@ def run_real(world, o, d, extra=(), timeout=120, env_extra=None):
     env.pop("TERM", None)
     if env_extra:
         env.update(env_extra)
+    if o.get("_env"):
+        env.update(o["_env"])
     obs = Obs()
-    p = subprocess.Popen(cli_args(d, o, extra), cwd=d, stdout=subprocess.PIPE, stderr=subprocess.PIPE, env=env)
+    p = subprocess.Popen(cli_args(d, o, extra), cwd=d, stdin=subprocess.PIPE, stdout=subprocess.PIPE, stderr=subprocess.PIPE,
+                         env=env, start_new_session=True)
     obs.parent_pid = p.pid
     try:
-        out, err = p.communicate(timeout=timeout)
+        out, err = p.communicate(input=(o.get("_stdin") or "").encode(), timeout=o.get("_timeout", timeout))
     except subprocess.TimeoutExpired:
-        p.kill()
+        import signal
+        try:
+            os.killpg(p.pid, signal.SIGKILL)      # the runner and the layer subprocesses it may be waiting for
+        except OSError:
+            p.kill()
         out, err = p.communicate()
         obs.timeout = True
     obs.exit = p.returncode
